@@ -17,6 +17,7 @@ package fox
 //@ extern (*iTree).lookup
 //@   noalloc
 //@   requires t != nil && c != nil && c.params != nil && c.tsrParams != nil && c.skipNds != nil
+//@   requires params-empty: !lazy ==> len(*c.params) == 0
 //@   modifies *c.params, *c.tsrParams, *c.skipNds, c.tsr, E[Param], E[skippedNode]
 //@   ensures n == selNode(t, method, hostPort, path) && tsr == selTsr(t, method, hostPort, path)
 //@   ensures (tsr ==> n != nil) && (n != nil ==> n.route != nil)
@@ -125,6 +126,8 @@ package fox
 //@   modifies C[Params], C[skippedNodes], c.tsr, E[Param], E[skippedNode], released
 //@   assert-at call lookupByDomain#1 : stripped-host: same(arg_host, netutil.StripHostPort(hostPort)) && same(arg_path, path) && arg_target == r[index] && arg_lazy == lazy
 //@   requires safety-live: !released[box(c)]
+//@   -- the walks record parameters at absolute positions: a recording lookup starts from an empty list (every reset variant empties it)
+//@   requires params-empty: !lazy ==> len(*c.params) == 0
 //@   ensures tsr-flag: c.tsr ==> old(c.tsr)
 //@   ensures leaf: n != nil ==> n.route != nil
 //@   ensures live: !released[box(c)]
